@@ -33,7 +33,8 @@
 //!   a streaming task t is followed by the entry 100+t,<status of its last chunk send>
 //!   status: 0 not started/dropped, 1 pending, 2 Ok, 3 Disconnected, 4 PacketIdInUse, 5 Encode, 6 UnexpectedRelease,
 //!           7 other (StreamingCancelled), 9 panicked
-//!   wire tags: 1 PUBLISH qos1, 2 PUBLISH qos2, 3 PUBLISH qos0, 4 PUBREL, 5 SUBSCRIBE, 6 UNSUBSCRIBE, 7 DISCONNECT,
+//!   wire tags: 1 PUBLISH qos1, 2 PUBLISH qos2, 3 PUBLISH qos0, 4 PUBREL, 5 SUBSCRIBE, 6 UNSUBSCRIBE,
+//!              7,reason DISCONNECT (v5: the reason code, 0 when the packet has no body; v3: 0),
 //!              8,len streamed payload bytes; anything else 100+type,0
 use std::cell::RefCell;
 use std::collections::BTreeMap;
@@ -370,6 +371,9 @@ impl Wire {
                 }
                 let id = if rl >= 2 && matches!(tp, 6 | 8 | 10) {
                     ((self.buf[pos] as u64) << 8) | self.buf[pos + 1] as u64
+                } else if tp == 14 && self.v5 && rl >= 1 {
+                    // DISCONNECT: the slot carries the reason code (v3 has none: 0)
+                    u64::from(self.buf[pos])
                 } else {
                     0
                 };
